@@ -23,6 +23,8 @@ func VerifC14_Publish(cs int) {
 		text += "0 @I1@ INDI\n1 NAME Dup /Smith/\n1 BIRT\n2 DATE garbage\n1 DEAT\n2 DATE 31 Feb 1900\n0 @F1@ FAM\n0 @S1@ SOUR\n0 @S2@ SOUR\n1 TITL T\n"
 	case 6: // a surname that starts with a two-byte letter or symbol (second byte symbolic: U+00C0..U+00FF)
 		text += "0 @I6@ INDI\n1 NAME Xavier /" + "\xc3" + VsBytes("initial", 1, 0x80, 0xbf) + "mile/\n1 BIRT\n2 DATE 1850\n1 DEAT\n2 DATE 1900\n"
+	case 8: // a surname of one or two bytes over blank, symbols, a digit and a letter (no letter at all, blanks, slashes ...)
+		text += "0 @I6@ INDI\n1 NAME Xavier /" + VsBytesIn("surname", VsChoose("surnamelen", 2)+1, " -/?(.9a") + "/\n1 BIRT\n2 DATE 1850\n1 DEAT\n2 DATE 1900\n"
 	case 7: // a surname that starts with any printable ASCII byte
 		text += "0 @I6@ INDI\n1 NAME Xavier /" + VsBytes("initial", 1, 0x21, 0x7e) + "mile/\n1 BIRT\n2 DATE 1850\n1 DEAT\n2 DATE 1900\n"
 	default: // an empty file
@@ -30,7 +32,7 @@ func VerifC14_Publish(cs int) {
 	}
 	doc, err := gedcom.NewDocumentFromString(text)
 	VsAssume(err == nil)
-	VsAssume(len(doc.Individuals()) >= 2 || cs/3 < 6)
+	VsAssume(len(doc.Individuals()) >= 2 || cs/3 < 6 || cs/3 > 8)
 	before := doc.String()
 	p := vPublish(doc, vAllOptions(vis), 1, vNewMemWriter())
 	VsObserve(string(vis))
